@@ -301,6 +301,14 @@ func decodeSettings(data []byte, exists bool) (settingsModel, error) {
 			case bool:
 				sc.Vals[sp.json] = strconv.FormatBool(x)
 			case json.Number:
+				if sp.kind == oInt {
+					n, err := x.Int64()
+					if err != nil {
+						return nil, fmt.Errorf("field %s: %v", sp.json, err)
+					}
+					sc.Vals[sp.json] = strconv.FormatInt(n, 10)
+					break
+				}
 				f, err := x.Float64()
 				if err != nil {
 					return nil, err
